@@ -1269,6 +1269,43 @@ Proof.
     unfold maxLoopCount. destruct (n <? 0) eqn:E1; [lia|]. destruct (n >? 65535) eqn:E2; lia.
   - cbn [fst]. constructor; cbn [m_frames m_icc m_exif m_xmp m_bg m_loop]; auto. lia.
   - cbn [fst]. constructor; cbn [m_frames m_icc m_exif m_xmp m_bg m_loop]; auto.
+  - cbn [fst]. constructor; auto.
+Qed.
+
+(** Assemble in the middle of a history is the identity on the state, so a history with
+    Assemble calls reaches the state of the same history without them. *)
+Lemma step_assemble_call m : fst (step m AssembleCall) = m.
+Proof. reflexivity. Qed.
+
+Lemma run_ignores_assemble_calls ops :
+  run ops = run (filter (fun o => match o with AssembleCall => false | _ => true end) ops).
+Proof.
+  unfold run. generalize minit. induction ops as [|o ops IH]; intros m; [reflexivity|].
+  cbn [fold_left filter]. destruct o; cbn [fold_left]; try apply IH.
+Qed.
+
+(** the frame limit: whatever the history, the muxer never holds more frames than the
+    demuxer accepts (MuxModel.MaxFrames = DemuxModel.maxFrames, both tied to the source) *)
+Lemma step_frames_bounded m o : len (m_frames m) <= MaxFrames -> len (m_frames (fst (step m o))) <= MaxFrames.
+Proof.
+  intros H. destruct o; cbn [step]; try exact H.
+  - destruct (len data =? 0); [exact H|].
+    destruct (Z.geb_spec (len (m_frames m)) MaxFrames); [exact H|]. cbn [fst MuxModel.set_frames m_frames].
+    rewrite len_app. unfold len at 2. cbn [length]. lia.
+  - cbn [fst]. unfold upd_frame. destruct ((0 <=? i) && (i <? len (m_frames m))); [|exact H].
+    cbn [MuxModel.set_frames m_frames]. unfold len. rewrite upd_nth_length. exact H.
+  - cbn [fst]. unfold upd_frame. destruct ((0 <=? i) && (i <? len (m_frames m))); [|exact H].
+    cbn [MuxModel.set_frames m_frames]. unfold len. rewrite upd_nth_length. exact H.
+  - destruct (olen d >? maxMetadataSize); [exact H|].
+    destruct (id =? FCC_ICCP); [exact H|]. destruct (id =? FCC_EXIF); [exact H|]. destruct (id =? FCC_XMP); exact H.
+Qed.
+
+Lemma frames_bounded ops : len (m_frames (run ops)) <= maxFrames.
+Proof.
+  change maxFrames with MaxFrames. unfold run.
+  assert (H0 : len (m_frames minit) <= MaxFrames) by (unfold len, MaxFrames; cbn; lia).
+  revert H0. generalize minit. induction ops as [|o ops IH]; intros m H; cbn [fold_left]; [exact H|].
+  apply IH. apply step_frames_bounded. exact H.
 Qed.
 
 Lemma run_mok ops : Forall op_ok ops -> mok (run ops).
@@ -1338,3 +1375,24 @@ Proof.
   - change (FCC_XMP =? FCC_ICCP) with false. change (FCC_XMP =? FCC_EXIF) with false.
     change (FCC_XMP =? FCC_XMP) with true. cbv iota. rewrite Hgt. reflexivity.
 Qed.
+
+(** ReadChunkHeader's MaxChunkPayload guard is exactly what keeps the uint32 size
+    arithmetic (chunkTotalSize: header + payload + padding) from wrapping: for every
+    admitted size the uint32 value is the mathematical one and fits 32 bits.  (ReadChunk
+    itself computes [ChunkHeaderSize + int(size)] in 64-bit int, modelled without wrap;
+    a change that routes it through the uint32 helper or admits MaxChunkPayload+1 is
+    outside the model and is caught by the correspondence at the size boundary.) *)
+Lemma chunk_guard_no_u32_wrap d id sz : bytes_ok d -> read_chunk_header d = Ok (id, sz) ->
+  chunk_total sz = 8 + sz + sz mod 2 /\ 8 + sz + sz mod 2 < 4294967296 /\ 0 <= sz.
+Proof.
+  intros Hb H. pose proof (read_chunk_header_spec d Hb) as Hs. rewrite H in Hs.
+  destruct Hs as (_ & Hsz & _). unfold MaxChunkPayload in Hsz.
+  unfold chunk_total, u32, ChunkHeaderSize.
+  destruct (Z.eqb_spec (sz mod 2) 0); cbn [negb]; lia.
+Qed.
+
+Example chunk_guard_boundary :
+  read_chunk_header ([65;66;67;68] ++ le32 4294967286) = Ok (1145258561, 4294967286) /\
+  read_chunk_header ([65;66;67;68] ++ le32 4294967287) = Err E_big /\
+  chunk_total 4294967287 = 0.
+Proof. vm_compute. repeat split; reflexivity. Qed.
